@@ -31,7 +31,9 @@ func (c *Ctx) checkAtCall(st *State, x *ast.CallExpr, fn *types.Func) {
 			env := c.newEnv(st, c.entry)
 			env.scopePos = x.Pos()
 			c.bindParamsCurrent(env)
+			c.goalMode++
 			t := env.boolTerm(cl.Expr)
+			c.goalMode--
 			label := "at-call:" + k
 			if cl.Label != "" {
 				label += ":" + cl.Label
